@@ -9,73 +9,89 @@ open NmVerif
 theorem getElem?_pre (pre : List Nat) (n : Nat) (t : List Nat) : (pre ++ n :: t)[pre.length]? = some n := by
   simp
 
-theorem foldl_none_shape (shape : List Nat) (nEll : Nat) (es : List Entry) :
-    es.foldl (shapeDynStep shape nEll) none = none := by
-  induction es with
-  | nil => rfl
-  | cons e es ih => simp [List.foldl, shapeDynStep, ih]
-
-/-- the counter-based loop of `shape_dynamic_slice` computes what the `template_for` recursion of `shape_slice` does -/
+/-- the counter-based loop of `shape_dynamic_slice` computes what the `template_for` recursion of `shape_slice` does:
+    the entries written plus the axes not yet visited are the packed result -/
 theorem shapeDyn_go (nEll : Nat) : ∀ (es : List Entry) (sh pre acc r : List Nat),
     shapeGo nEll sh es = some r →
-    (es.foldl (shapeDynStep (pre ++ sh) nEll) (some ⟨acc, pre.length⟩)).map (·.res) = some (acc ++ r) := by
+    ∃ st, es.foldl (shapeDynStep (pre ++ sh) nEll) (some ⟨acc, pre.length⟩) = some st ∧
+      st.res ++ (pre ++ sh).drop st.shp = acc ++ r := by
   intro es
   induction es with
-  | nil => intro sh pre acc r h; simp [shapeGo] at h; subst h; simp
+  | nil =>
+    intro sh pre acc r h
+    simp [shapeGo] at h; subst h
+    exact ⟨⟨acc, pre.length⟩, rfl, by simp⟩
   | cons e es ih =>
     intro sh pre acc r h
-    cases sh with
-    | nil => simp [shapeGo] at h
-    | cons n t =>
-      cases e with
-      | ellipsis =>
+    cases e with
+    | ellipsis =>
+      have h' : nEll ≤ sh.length ∧ ∃ r', shapeGo nEll (sh.drop nEll) es = some r' ∧ r = sh.take nEll ++ r' := by
+        cases sh <;> simp only [shapeGo] at h <;> split at h <;>
+          first
+          | (rename_i hc; obtain ⟨r', hr', hrr⟩ := Option.map_eq_some_iff.1 h; exact ⟨hc, r', hr', hrr.symm⟩)
+          | simp at h
+      obtain ⟨hle, r', hr', rfl⟩ := h'
+      obtain ⟨st, hst, hinv⟩ := ih (sh.drop nEll) (pre ++ sh.take nEll) (acc ++ sh.take nEll) r' hr'
+      have e1 : pre ++ sh.take nEll ++ sh.drop nEll = pre ++ sh := by
+        rw [List.append_assoc, List.take_append_drop]
+      have e3 : (pre ++ sh.take nEll).length = pre.length + nEll := by
+        rw [List.length_append, List.length_take]; omega
+      rw [e1, e3] at hst
+      rw [e1] at hinv
+      refine ⟨st, ?_, by rw [hinv, List.append_assoc]⟩
+      simp only [List.foldl, shapeDynStep]
+      have hle' : pre.length + nEll ≤ (pre ++ sh).length := by simp only [List.length_append]; omega
+      rw [if_pos hle']
+      have e2 : (pre ++ sh).drop pre.length = sh := by simp
+      rw [e2]
+      exact hst
+    | int k =>
+      cases sh with
+      | nil => simp [shapeGo] at h
+      | cons n t =>
         simp only [shapeGo] at h
-        split at h
-        · rename_i hle
-          obtain ⟨r', hr', rfl⟩ := Option.map_eq_some_iff.1 h
-          have key := ih ((n :: t).drop nEll) (pre ++ (n :: t).take nEll) (acc ++ (n :: t).take nEll) r' hr'
-          have e1 : pre ++ (n :: t).take nEll ++ (n :: t).drop nEll = pre ++ n :: t := by
-            rw [List.append_assoc, List.take_append_drop]
-          rw [e1] at key
-          simp only [List.foldl, shapeDynStep]
-          have hle' : pre.length + nEll ≤ (pre ++ n :: t).length := by simp only [List.length_append]; omega
-          rw [if_pos hle']
-          have e2 : (pre ++ n :: t).drop pre.length = n :: t := by simp
-          rw [e2]
-          have e3 : (pre ++ (n :: t).take nEll).length = pre.length + nEll := by
-            rw [List.length_append, List.length_take]; omega
-          rw [e3] at key
-          rw [key, List.append_assoc]
-        · simp at h
-      | int k =>
-        simp only [shapeGo] at h
-        have key := ih t (pre ++ [n]) acc r h
+        obtain ⟨st, hst, hinv⟩ := ih t (pre ++ [n]) acc r h
         have e1 : pre ++ [n] ++ t = pre ++ n :: t := by simp
-        rw [e1] at key
+        rw [e1] at hst hinv
+        refine ⟨st, ?_, hinv⟩
         simp only [List.foldl, shapeDynStep]
-        simpa using key
-      | range a b c =>
+        simpa using hst
+    | range a b c =>
+      cases sh with
+      | nil => simp [shapeGo] at h
+      | cons n t =>
         simp only [shapeGo] at h
         split at h
         · rename_i l hl
           obtain ⟨r', hr', rfl⟩ := Option.map_eq_some_iff.1 h
-          have key := ih t (pre ++ [n]) (acc ++ [l.toNat]) r' hr'
+          obtain ⟨st, hst, hinv⟩ := ih t (pre ++ [n]) (acc ++ [l.toNat]) r' hr'
           have e1 : pre ++ [n] ++ t = pre ++ n :: t := by simp
-          rw [e1] at key
+          rw [e1] at hst hinv
+          refine ⟨st, ?_, by rw [hinv]; simp⟩
           simp only [List.foldl, shapeDynStep, getElem?_pre, hl]
-          simpa using key
+          simpa using hst
         · simp at h
-      | range2 a b =>
+    | range2 a b =>
+      cases sh with
+      | nil => simp [shapeGo] at h
+      | cons n t =>
         simp only [shapeGo] at h
         split at h
         · rename_i l hl
           obtain ⟨r', hr', rfl⟩ := Option.map_eq_some_iff.1 h
-          have key := ih t (pre ++ [n]) (acc ++ [l.toNat]) r' hr'
+          obtain ⟨st, hst, hinv⟩ := ih t (pre ++ [n]) (acc ++ [l.toNat]) r' hr'
           have e1 : pre ++ [n] ++ t = pre ++ n :: t := by simp
-          rw [e1] at key
+          rw [e1] at hst hinv
+          refine ⟨st, ?_, by rw [hinv]; simp⟩
           simp only [List.foldl, shapeDynStep, getElem?_pre, hl]
-          simpa using key
+          simpa using hst
         · simp at h
+
+theorem padZeros_some_le {L : Nat} {l r : List Nat} (h : padZeros L l = some r) : l.length ≤ L := by
+  unfold padZeros at h
+  split at h
+  · assumption
+  · simp at h
 
 theorem shape_packed_eq_dynamic (shape : List Nat) (es : List Entry) (r : List Nat)
     (h : shapeSlice shape es = some r) : shapeDynamicSlice shape es = some r := by
@@ -90,10 +106,17 @@ theorem shape_packed_eq_dynamic (shape : List Nat) (es : List Entry) (r : List N
     · rename_i h2
       rw [if_neg h1, if_neg h2]
       obtain ⟨r', hr', hp⟩ := Option.bind_eq_some_iff.1 h
-      have key := shapeDyn_go _ es shape [] [] r' hr'
-      simp only [List.nil_append, List.length_nil] at key
-      rw [key]
-      simpa using hp
+      obtain ⟨st, hst, hinv⟩ := shapeDyn_go _ es shape [] [] r' hr'
+      simp only [List.nil_append, List.length_nil] at hst hinv
+      rw [hst]
+      simp only [Option.map_some, Option.bind_some]
+      have hle := padZeros_some_le hp
+      have hlen : st.res.length + (shape.drop st.shp).length = r'.length := by
+        rw [← List.length_append, hinv]
+      have : (shape.drop st.shp).take (shape.length - numInt es - st.res.length) = shape.drop st.shp :=
+        List.take_of_length_le (by omega)
+      rw [this, hinv]
+      exact hp
 
 theorem idxDyn_range_step (nEll n i : Nat) (t ix pre ipre acc : List Nat) (e : Entry) (es : List Entry)
     (he : (∃ a b c, e = .range a b c) ∨ (∃ a b, e = .range2 a b)) :
@@ -102,74 +125,96 @@ theorem idxDyn_range_step (nEll n i : Nat) (t ix pre ipre acc : List Nat) (e : E
   rcases he with ⟨a, b, c, rfl⟩ | ⟨a, b, rfl⟩ <;> simp [List.foldl, idxDynStep]
 
 theorem idxDyn_go (nEll : Nat) : ∀ (es : List Entry) (sh pre ix ipre acc r : List Nat),
+    acc.length = pre.length →
     idxGo nEll sh ix es = some r →
-    (es.foldl (idxDynStep (pre ++ sh) (ipre ++ ix) nEll) (some ⟨acc, pre.length, ipre.length⟩)).map (·.res) = some (acc ++ r) := by
+    ∃ st, es.foldl (idxDynStep (pre ++ sh) (ipre ++ ix) nEll) (some ⟨acc, pre.length, ipre.length⟩) = some st ∧
+      st.res ++ ((ipre ++ ix).drop st.ind).take ((pre ++ sh).length - st.res.length) = acc ++ r := by
   intro es
   induction es with
-  | nil => intro sh pre ix ipre acc r h; simp [idxGo] at h; subst h; simp
+  | nil =>
+    intro sh pre ix ipre acc r hacc h
+    simp [idxGo] at h; subst h
+    refine ⟨⟨acc, pre.length, ipre.length⟩, rfl, ?_⟩
+    simp [hacc]
   | cons e es ih =>
-    intro sh pre ix ipre acc r h
-    cases sh with
-    | nil => simp [idxGo] at h
-    | cons n t =>
-      cases e with
-      | ellipsis =>
-        simp only [idxGo] at h
-        split at h
-        · rename_i hle
-          obtain ⟨r', hr', rfl⟩ := Option.map_eq_some_iff.1 h
-          have key := ih ((n :: t).drop nEll) (pre ++ (n :: t).take nEll) (ix.drop nEll) (ipre ++ ix.take nEll)
-            (acc ++ ix.take nEll) r' hr'
-          have e1 : pre ++ (n :: t).take nEll ++ (n :: t).drop nEll = pre ++ n :: t := by
-            rw [List.append_assoc, List.take_append_drop]
-          have e1' : ipre ++ ix.take nEll ++ ix.drop nEll = ipre ++ ix := by
-            rw [List.append_assoc, List.take_append_drop]
-          rw [e1, e1'] at key
-          simp only [List.foldl, idxDynStep]
-          have hle' : pre.length + nEll ≤ (pre ++ n :: t).length ∧ ipre.length + nEll ≤ (ipre ++ ix).length := by
-            simp only [List.length_append]; omega
-          rw [if_pos hle']
-          have e2 : (ipre ++ ix).drop ipre.length = ix := by simp
-          rw [e2]
-          have e3 : (pre ++ (n :: t).take nEll).length = pre.length + nEll := by
-            rw [List.length_append, List.length_take]; omega
-          have e3' : (ipre ++ ix.take nEll).length = ipre.length + nEll := by
-            rw [List.length_append, List.length_take]; omega
-          rw [e3, e3'] at key
-          rw [key, List.append_assoc]
-        · simp at h
-      | int k =>
+    intro sh pre ix ipre acc r hacc h
+    cases e with
+    | ellipsis =>
+      have h' : (nEll ≤ sh.length ∧ nEll ≤ ix.length) ∧
+          ∃ r', idxGo nEll (sh.drop nEll) (ix.drop nEll) es = some r' ∧ r = ix.take nEll ++ r' := by
+        cases sh <;> simp only [idxGo] at h <;> split at h <;>
+          first
+          | (rename_i hc; obtain ⟨r', hr', hrr⟩ := Option.map_eq_some_iff.1 h; exact ⟨hc, r', hr', hrr.symm⟩)
+          | simp at h
+      obtain ⟨hle, r', hr', rfl⟩ := h'
+      have e3 : (pre ++ sh.take nEll).length = pre.length + nEll := by
+        rw [List.length_append, List.length_take]; omega
+      have e3' : (ipre ++ ix.take nEll).length = ipre.length + nEll := by
+        rw [List.length_append, List.length_take]; omega
+      have hacc' : (acc ++ ix.take nEll).length = (pre ++ sh.take nEll).length := by
+        rw [e3, List.length_append, List.length_take]; omega
+      obtain ⟨st, hst, hinv⟩ := ih (sh.drop nEll) (pre ++ sh.take nEll) (ix.drop nEll) (ipre ++ ix.take nEll)
+        (acc ++ ix.take nEll) r' hacc' hr'
+      have e1 : pre ++ sh.take nEll ++ sh.drop nEll = pre ++ sh := by
+        rw [List.append_assoc, List.take_append_drop]
+      have e1' : ipre ++ ix.take nEll ++ ix.drop nEll = ipre ++ ix := by
+        rw [List.append_assoc, List.take_append_drop]
+      rw [e1, e1', e3, e3'] at hst
+      rw [e1, e1'] at hinv
+      refine ⟨st, ?_, by rw [hinv, List.append_assoc]⟩
+      simp only [List.foldl, idxDynStep]
+      have hle' : pre.length + nEll ≤ (pre ++ sh).length ∧ ipre.length + nEll ≤ (ipre ++ ix).length := by
+        simp only [List.length_append]; omega
+      rw [if_pos hle']
+      have e2 : (ipre ++ ix).drop ipre.length = ix := by simp
+      rw [e2]
+      exact hst
+    | int k =>
+      cases sh with
+      | nil => simp [idxGo] at h
+      | cons n t =>
         simp only [idxGo] at h
         obtain ⟨r', hr', rfl⟩ := Option.map_eq_some_iff.1 h
-        have key := ih t (pre ++ [n]) ix ipre (acc ++ [(intIndex n k).toNat]) r' hr'
+        obtain ⟨st, hst, hinv⟩ := ih t (pre ++ [n]) ix ipre (acc ++ [(intIndex n k).toNat]) r' (by simp [hacc]) hr'
         have e1 : pre ++ [n] ++ t = pre ++ n :: t := by simp
-        rw [e1] at key
+        rw [e1] at hst hinv
+        refine ⟨st, ?_, by rw [hinv]; simp⟩
         simp only [List.foldl, idxDynStep, getElem?_pre]
-        simpa using key
-      | range a b c =>
+        simpa using hst
+    | range a b c =>
+      cases sh with
+      | nil => simp [idxGo] at h
+      | cons n t =>
         cases ix with
         | nil => simp [idxGo] at h
         | cons i ix =>
           simp only [idxGo] at h
           obtain ⟨r', hr', rfl⟩ := Option.map_eq_some_iff.1 h
-          have key := ih t (pre ++ [n]) ix (ipre ++ [i]) (acc ++ [((Entry.range a b c).idx n i).toNat]) r' hr'
+          obtain ⟨st, hst, hinv⟩ := ih t (pre ++ [n]) ix (ipre ++ [i]) (acc ++ [((Entry.range a b c).idx n i).toNat]) r'
+            (by simp [hacc]) hr'
           have e1 : pre ++ [n] ++ t = pre ++ n :: t := by simp
           have e1' : ipre ++ [i] ++ ix = ipre ++ i :: ix := by simp
-          rw [e1, e1'] at key
+          rw [e1, e1'] at hst hinv
+          refine ⟨st, ?_, by rw [hinv]; simp⟩
           rw [idxDyn_range_step _ _ _ _ _ _ _ _ _ _ (Or.inl ⟨a, b, c, rfl⟩)]
-          simpa using key
-      | range2 a b =>
+          simpa using hst
+    | range2 a b =>
+      cases sh with
+      | nil => simp [idxGo] at h
+      | cons n t =>
         cases ix with
         | nil => simp [idxGo] at h
         | cons i ix =>
           simp only [idxGo] at h
           obtain ⟨r', hr', rfl⟩ := Option.map_eq_some_iff.1 h
-          have key := ih t (pre ++ [n]) ix (ipre ++ [i]) (acc ++ [((Entry.range2 a b).idx n i).toNat]) r' hr'
+          obtain ⟨st, hst, hinv⟩ := ih t (pre ++ [n]) ix (ipre ++ [i]) (acc ++ [((Entry.range2 a b).idx n i).toNat]) r'
+            (by simp [hacc]) hr'
           have e1 : pre ++ [n] ++ t = pre ++ n :: t := by simp
           have e1' : ipre ++ [i] ++ ix = ipre ++ i :: ix := by simp
-          rw [e1, e1'] at key
+          rw [e1, e1'] at hst hinv
+          refine ⟨st, ?_, by rw [hinv]; simp⟩
           rw [idxDyn_range_step _ _ _ _ _ _ _ _ _ _ (Or.inr ⟨a, b, rfl⟩)]
-          simpa using key
+          simpa using hst
 
 theorem idx_packed_eq_dynamic (shape : List Nat) (es : List Entry) (d r : List Nat)
     (h : sliceIdx shape es d = some r) : dynamicSlice shape es d = some r := by
@@ -181,10 +226,11 @@ theorem idx_packed_eq_dynamic (shape : List Nat) (es : List Entry) (d r : List N
   · rename_i h1
     rw [if_neg h1]
     obtain ⟨r', hr', hp⟩ := Option.bind_eq_some_iff.1 h
-    have key := idxDyn_go _ es shape [] d [] [] r' hr'
-    simp only [List.nil_append, List.length_nil] at key
-    rw [key]
-    simpa using hp
-
+    obtain ⟨st, hst, hinv⟩ := idxDyn_go _ es shape [] d [] [] r' rfl hr'
+    simp only [List.nil_append, List.length_nil] at hst hinv
+    rw [hst]
+    simp only [Option.map_some, Option.bind_some]
+    rw [hinv]
+    exact hp
 
 end NmVerif.Slice
